@@ -4,6 +4,7 @@ import collections
 import json
 import os
 import re
+import time
 
 PID = "C06"
 
@@ -80,8 +81,8 @@ def eval_model(ck, cases, shard=150):
     plain = [i for i, c in enumerate(cases) if not c.get("http")]
     http = [i for i, c in enumerate(cases) if c.get("http")]
     stream = [i for i, c in enumerate(cases) if c.get("stream")]
-    for kind, idxs, typ, fn, conv, sh in (("p", plain, "icase", "codes", case_coq, shard), ("h", http, "hcase", "hcodes", hcase_coq, 60),
-                                          ("s", stream, "scase", "scodes", scase_coq, 80)):
+    for kind, idxs, typ, fn, conv, sh in (("p", plain, "icase", "codes", case_coq, shard), ("h", http, "hcase", "hcodes", hcase_coq, 12),
+                                          ("s", stream, "scase", "scodes", scase_coq, 40)):
         for i in range(0, len(idxs), sh):
             chunk = idxs[i:i + sh]
             txt = HEAD + ("Definition cases : list %s := [\n%s\n].\nDefinition M := Eval vm_compute in %s cases.\nPrint M.\n"
@@ -101,7 +102,7 @@ def eval_model(ck, cases, shard=150):
         kind, chunk = groups[idx]
         for a, b in re.findall(r"\(\s*(\d+)(?:%nat)?\s*,\s*(\d+)\s*\)", m.group(1)):
             if kind == "s":
-                sbad.append(chunk[int(a)])
+                sbad.append((chunk[int(a)], int(b)))
             else:
                 codes[chunk[int(a)]] = int(b)
     return (codes, sbad) if ok else None
@@ -222,11 +223,20 @@ def main(ck):
     frag = os.path.join(ck.verif, "props", PID, "findings.json")
     have = {f["id"] for f in ck.findings}
     ck.findings += [f for f in json.load(open(frag))["findings"] if f["property"] == PID and f["id"] not in have]
+    t0 = time.time()
+    phases = ck.cov.setdefault("phase_seconds", {})
+
+    def lap(name):
+        nonlocal t0
+        phases[name] = round(time.time() - t0, 1)
+        t0 = time.time()
     ck.coq_audit(["C06"])
     ok = ck.coq_build(["C06/Proofs.vo", "C06/ProofsInt.vo", "C06/ProofsDec.vo", "C06/ProofsRender.vo", "C06/ProofsStream.vo", "C06/Corr.vo"])
     if ok:
         ck.coq_props(["C06/Props.v", "C06/Refuted.v"])
+    lap("coq_build_and_props")
     binp = ck.go_build("./cmd/c06", "c06")
+    lap("go_build")
     if not binp:
         return
     if getattr(ck, "replay", None):
@@ -238,28 +248,57 @@ def main(ck):
     if rc != 0 or not done or int(done.group(1)) != len(cases) or len(cases) < n:
         ck.broken.append("harness c06 failed rc=%d cases=%d: %s" % (rc, len(cases), out[-600:]))
         return
-    sweep = re.search(r'\{"stream_sweep":(\d+),"failed":(\d+),"multi":(\d+)\}', out)
+    sweep = re.search(r'\{"stream_sweep":(\d+),"failed":(\d+),"multi":(\d+),"refused":(\d+)\}', out)
     if not sweep:
         ck.broken.append("harness c06: block-reader boundary sweep did not report")
     else:
         ck.cov["block_reader_sweep_bodies"] = int(sweep.group(1))
         ck.cov["block_reader_sweep_failed"] = int(sweep.group(2))
         ck.cov["block_reader_sweep_multi_block"] = int(sweep.group(3))
+        ck.cov["block_reader_sweep_refused"] = int(sweep.group(4))
+        if int(sweep.group(4)) * 4 > int(sweep.group(1)):
+            ck.broken.append("harness c06: the block reader refuses %s of the %s valid bodies of the boundary sweep - the sweep is vacuous"
+                             % (sweep.group(4), sweep.group(1)))
         if int(sweep.group(3)) * 2 < int(sweep.group(1)):
             ck.broken.append("harness c06: the boundary sweep of the block reader is vacuous (%s of %s bodies arrived in more than one block)"
                              % (sweep.group(3), sweep.group(1)))
+    lap("harness_in_process")
     ev = eval_model(ck, cases) if ok else None
+    lap("model_evaluation")
     codes = ev[0] if ev is not None else None
     stats = {"by_finding": collections.Counter(), "first": {}, "unlisted_failures": 0}
     if codes is not None:
         judge(ck, cases, codes, stats)
-        for i in ev[1][:3]:
+        for i, code in [x for x in ev[1] if x[1] == 1][:3]:
             c = cases[i]
-            ck.broken.append("correspondence C06 block reader: the model (read_blocks with the replayed buffer capacities) does not deliver "
-                             "the blocks the implementation delivered on case %d (%s)" % (c["i"], c.get("sub")))
+            ck.broken.append("correspondence C06 block reader: the delivered blocks are not the stream cut at newlines (the discipline "
+                             "C06_blocks_cut_only_at_newlines proves of the model) on case %d (%s)" % (c["i"], c.get("sub")))
             if not getattr(ck, "nofail_detail", None):
                 ck.nofail_detail = {"kind": "correspondence-block-reader", "case_index": c["i"], "sub": c.get("sub"), "stream": c["stream"]}
-        ck.cov["block_reader_runs_reproduced_by_model"] = sum(1 for c in cases if c.get("stream")) - len(ev[1])
+        nstream = sum(1 for c in cases if c.get("stream"))
+        inexact = [i for i, code in ev[1] if code == 2]
+        ck.cov["block_reader_runs"] = nstream
+        ck.cov["block_reader_runs_cut_at_newlines_only"] = nstream - sum(1 for x in ev[1] if x[1] == 1)
+        ck.cov["block_reader_runs_reproduced_block_by_block_by_model"] = nstream - len(ev[1])
+        if inexact:
+            ck.notes.append("block reader: on %d of %d runs the blocks are cut at newlines but not where read_blocks (ModelStream.v) cuts them "
+                            "with the replayed capacities - the cutting strategy of the code is no longer the modelled one (first: case %d)"
+                            % (len(inexact), nstream, cases[inexact[0]]["i"]))
+        # vacuity guards: refusing is never a violation, but a run in which (almost) nothing is accepted checks nothing
+        hc = [c for c in cases if c.get("http")]
+        hack = sum(1 for c in hc if not c["err"])
+        ck.cov["http_requests"] = len(hc)
+        ck.cov["http_requests_acknowledged"] = hack
+        ck.cov["http_valid_requests_refused"] = sum(1 for c in hc if "valid-refused" in (c.get("sub") or ""))
+        ck.cov["http_streamed_bodies_over_limit"] = sum(1 for c in hc if c["http"]["stream"] and c["http"]["limit"] and c["http"]["kind"] == "chunked" and len(c["in"]) // 2 > c["http"]["limit"])
+        ck.cov["http_streamed_bodies_over_limit_refused"] = sum(1 for c in hc if c["err"] and c["http"]["stream"] and c["http"]["limit"] and c["http"]["kind"] == "chunked" and len(c["in"]) // 2 > c["http"]["limit"])
+        if hc and (hack * 5 < len(hc) or ck.cov["http_valid_requests_refused"] * 4 > len(hc)):
+            ck.broken.append("harness c06: the write endpoint refuses (almost) everything (%d of %d requests acknowledged, %d valid ones refused) - "
+                             "the framing checks are vacuous" % (hack, len(hc), ck.cov["http_valid_requests_refused"]))
+        sc = [c for c in cases if c.get("stream")]
+        srefused = sum(1 for c in sc if "valid-refused" in (c.get("sub") or ""))
+        if sc and srefused * 4 > len(sc):
+            ck.broken.append("harness c06: the block reader refuses %d of %d valid bodies - the framing checks are vacuous" % (srefused, len(sc)))
     else:
         # proofs or model do not build: still run the direct oracle alone
         for c in cases:
@@ -267,6 +306,7 @@ def main(ck):
                 ck.violation({"kind": "direct-oracle", "text": c["text"], "in": c["in"], "oracle": c["oracle"]})
                 break
     e2e = run_e2e(ck, binp, stats)
+    lap("end_to_end")
     for fid, what in sorted(stats["first"].items()):
         ck.known_finding(fid, "%s (%d failing inputs in this run)" % (what, stats["by_finding"][fid]))
     # coverage
